@@ -283,3 +283,19 @@ Example C15_example_oracles :
   /\ eval_fm id_order O (FDirContents NonRec (SSelection (FRun 1) (SNumFiles CEq 1))) e = Ok true
   /\ eval_fm id_order O (FDirContents NonRec (SAny (FRun 2))) e = Err EMiss.
 Proof. vm_compute. repeat split; reflexivity. Qed.
+
+(** a link that cannot be resolved (a cycle): [type file] / [type dir] are false for it, [type symlink]
+    true; the recursive generator, which must test it for being a directory, raises HARD_ERROR
+    unless it is at max depth; a merely dangling link ([link_error] = false) is simply no directory. *)
+Example C15_example_unresolvable_link :
+  let t := Dir [(n_a, File []); (n_b, Link None)] in
+  let cyc b := Oracles (fun _ _ => None) (fun _ _ => None) (fun _ _ => None) (fun _ _ => None) (fun _ _ => None)
+                       (fun _ _ => None) (fun p => if path_eqb p [n_c; n_b] then Some b else None) in
+  let e := root_elem t [n_c] in
+  eval_fm id_order (cyc true) (FDirContents NonRec (SSelection (FOr (FType TFile) (FType TDir)) (SNumFiles CEq 1))) e = Ok true
+  /\ sem_fm (cyc true) (FDirContents NonRec (SSelection (FType TSymlink) (SNumFiles CEq 1))) e = Some true
+  /\ eval_fm id_order (cyc true) (FDirContents (Rec None None) (SNumFiles CEq 2)) e = Err EHard
+  /\ sem_fm (cyc true) (FDirContents (Rec None None) (SNumFiles CEq 2)) e = None
+  /\ eval_fm id_order (cyc true) (FDirContents (Rec None (Some 0)) (SNumFiles CEq 2)) e = Ok true
+  /\ sem_fm (cyc false) (FDirContents (Rec None None) (SNumFiles CEq 2)) e = Some true.
+Proof. vm_compute. repeat split; reflexivity. Qed.
